@@ -90,7 +90,8 @@ def coq_model_file(pool, meta, histories):
     for n in pool:
         m = meta[n]
         deps = "; ".join(str(idx[d]) for d in m["deps"])
-        defs.append(f"({idx[n]}, mkDef {b(m['is_type'])} [{deps}] {b(m['check_ok'])} {b(m['comptime'])} "
+        nested = "; ".join(str(idx[d]) for d in m.get("nested", []))
+        defs.append(f"({idx[n]}, mkDef {b(m['is_type'])} [{deps}] [{nested}] {b(m['check_ok'])} {b(m['comptime'])} "
                     f"{b(m['trace_ok'])} 2 1 {1 if m['is_type'] else 0} {2 if m['is_type'] else 0}%nat 1%nat 0%nat false [] {idx[n]})")
     opc = {"check": "OCheck", "compile": "OCompile", "pycall": "OPyCall"}
     hs = []
@@ -102,11 +103,12 @@ def coq_model_file(pool, meta, histories):
         "Import ListNotations. Open Scope Z_scope.",
         f"Definition F := {FUEL}%nat.",
         "Definition pool : list (Z * Def) := [" + ";\n ".join(defs) + "].",
-        f"Definition s0 : Sess := mkSess pool {len(pool)} [] [] [] [] [] 0 0 0 false [].",
+        "(* names are the pool indices: the module namespace binds every pool name to its definition *)",
+        f"Definition s0 : Sess := mkSess pool {len(pool)} [] [] [] [] [] 0 0 0 false [] (map (fun p => (fst p, fst p)) pool).",
         "Definition code (r : res) : Z := match r with Ok => 0 | Err (KeyErr _) => 1 | Err (CheckErr _) => 2 | Err (TraceErr _) => 3 | Err OutOfFuel => 9 end.",
         "Definition status (s : Sess) (o : op) : Z := match o with",
         "  | OCheck id => code (snd (check F s id)) | OCompile id => code (snd (fst (compile F s id)))",
-        "  | OPyCall _ => match pycall s with PyComptimeError => 4 | PyTracedGarbage => 5 end | ORegister _ => 0 end.",
+        "  | OPyCall _ => match pycall s with PyComptimeError => 4 | PyTracedGarbage => 5 end | ORegister _ _ => 0 end.",
         "Fixpoint trace (s : Sess) (h : list op) : list (Z * bool * list Z * bool) := match h with [] => []",
         "  | o :: r => let s' := exec_op F s o in",
         "     (status s o, tracing s', map fst (checked s'), match to_check s', types_to_check s' with [], [] => true | _, _ => false end) :: trace s' r end.",
@@ -131,11 +133,26 @@ def ast_assign_named(n, name):
 
 
 def run(ctx):
-    generate(ctx)
-    info = ctx.coq_props()
-    r = vlib.rng(ctx.seed, "C11")
+    # A translator that fails closed breaks the tie, but the verdict should still come with a
+    # concrete failing history when one exists: keep going with the replay search.
+    tr_err = None
+    try:
+        generate(ctx)
+    except vlib.TranslatorError as e:
+        tr_err = str(e)
     import tr_inventory
-    inv = tr_inventory.inventory(ctx.repo)
+    if tr_err is None:
+        info = ctx.coq_props()
+        inv = tr_inventory.inventory(ctx.repo)
+    else:
+        info = {"ok": False, "failed": "translator: " + tr_err, "log": "translator failed closed: " + tr_err,
+                "obligations": 1, "discharged": 0, "axioms": [], "theorems": []}
+        inv = {k: None for k in ("engine_fields", "reset_fields", "global_state", "mutation_sites", "guard_present",
+                                 "has_finally", "order", "check_resets_first", "compile_checks_first",
+                                 "session_write_sites", "nested_writes_namespace")}
+        inv["global_state"] = []
+        inv["session_write_sites"] = []
+    r = vlib.rng(ctx.seed, "C11")
 
     # ---- histories: fresh single-op references, corpus, random
     import sys as _sys
@@ -214,7 +231,7 @@ def run(ctx):
     model_cases = model_diff = 0
     cone_checked = 0
     sample_model = []
-    model_ok = (vlib.COQ / "C11" / "ModelEngine.vo").exists()
+    model_ok = tr_err is None and (vlib.COQ / "C11" / "ModelEngine.vo").exists()
     # definitions whose cone contains a comptime definition: the real engine discovers the
     # callees of a traced body lazily during compile, the model (abstraction) during check
     def cone(n, seen=None):
@@ -269,9 +286,10 @@ def run(ctx):
     # ---- decide on proofs
     if not info["ok"]:
         if not ctx.violations and not ctx.known_hits:
-            ctx.report("proof-broken:" + str(info["failed"]), "proof-broken", str(info["failed"]),
+            ctx.report(("translator:" + tr_err) if tr_err else "proof-broken:" + str(info["failed"]), "proof-broken", str(info["failed"]),
                        {"coq_error": vlib.CoqResult(False, info["log"]).error_excerpt(),
-                        "generated_facts": {k: inv[k] for k in ("guard_present", "has_finally", "order", "check_resets_first", "compile_checks_first", "reset_fields", "engine_fields")},
+                        "generated_facts": {k: inv[k] for k in ("guard_present", "has_finally", "order", "check_resets_first", "compile_checks_first", "reset_fields", "engine_fields", "nested_writes_namespace")},
+                        "unmodelled_write_sites": sorted(set(inv["session_write_sites"]) ^ set(MODELLED_AND_CONSTANT(r'"((?:internals|guppylang)/[^"]+(?:\(\)|=))"'))) if inv["session_write_sites"] else None,
                         "unmodelled_state": sorted(set(inv["global_state"]) ^ set(MODELLED_AND_CONSTANT())),
                         "searched": {"histories": len(histories), "operations": n_ops}},
                        found_input=False)
@@ -295,7 +313,9 @@ def run(ctx):
         pool=pool, model_vs_impl_operations=model_cases, model_vs_impl_disagreements=model_diff,
         successful_ops_with_checked_set_compared=cone_checked, model_evaluated=model_ok,
         inventory={"engine_fields": inv["engine_fields"], "reset_fields": inv["reset_fields"],
-                   "global_state_entries": len(inv["global_state"]), "mutation_sites": inv["mutation_sites"],
+                   "global_state_entries": len(inv["global_state"] or []), "mutation_sites": inv["mutation_sites"],
+                   "session_write_sites": len(inv["session_write_sites"]), "nested_writes_namespace": inv["nested_writes_namespace"],
+                   "translator_error": tr_err,
                    "guard_present": inv["guard_present"], "set_tracing_state_has_finally": inv["has_finally"],
                    "compare_var_order": inv["order"]},
         samples=[{"history": histories[j], "last_op": {k: res[j][-1].get(k) for k in ("op", "name", "status", "hugr", "nodes")}}
@@ -308,7 +328,7 @@ def run(ctx):
         "the forked child after importing the pool stands for a fresh interpreter"])
 
 
-def MODELLED_AND_CONSTANT():
+def MODELLED_AND_CONSTANT(pat=r'"((?:internals|guppylang)/[^"]+:(?:count|GeneratorExp|cache|Dict|List|DictComp|dict|global|DefinitionStore|CompilationEngine|ContextVar))"'):
     import re
     txt = (vlib.COQ / "C11" / "ModelInventory.v").read_text()
-    return re.findall(r'"((?:internals|guppylang)/[^"]+)"', txt)
+    return re.findall(pat, txt)
